@@ -12,7 +12,11 @@ Stages
                   distinct = repeated coo_increase_mem of both arrays; few keys at capacity <= limit = depth <= 3 for ever;
                   alternating blocks) with driver-shaped |min| exercise the region of C04_acc_total_volume beyond
                   C04_acc_total, and the consequences of its invariant (level counter <= 4*(F+1), F <= 2*#events/limit,
-                  F = 0 while capacity <= limit) are evaluated on the implementation's trace
+                  F = 0 while capacity <= limit) are evaluated on the implementation's trace; at limit 64 a few runs of
+                  2000-2300 events with |min| = 4 on a buffer allocated at most `limit` long lie beyond that theorem, inside
+                  C04_acc_total_driver (Proofs/K01_CooAcc_keys.v): there F = 0 (level counter <= 4, depth <= 3) is demanded
+                  through every growth cap -> cap' with cap' <= limit + ceil(0.95 * cap), and after EVERY op of every
+                  state-level case the set of live keys must be the set before it (plus the appended key): key preservation
   real threshold  the same kernels at the library's own COO_QUICKSORT_LIMIT on generated streams, oracle only
   API level       Token / TimedToken / MultiSet / Ngram co-occurrence vectorizers x n_threads x coo_initial_memory x
                   NUMBA_NUM_THREADS x corpus sizes x {fit_transform, fit(small).transform(50x larger)}: compared with
@@ -77,6 +81,20 @@ def grow_min_size(n):
     return int(round(1.5 * (n + 2)))          # python's round is half-to-even, like np.round
 
 
+def grow_size(L, n):
+    return max(int(round(1.5 * n)), L + 1)
+
+
+def driver_mlen(fuel, L, n, mlen):
+    """driver_mlen of Proofs/K01_CooAcc_keys.v: |min| at the first growth after which a flush may skip merge_all."""
+    while fuel > 0:
+        n2, m2 = grow_size(L, n), grow_min_size(mlen)
+        if not n2 <= L + (19 * n + 19) // 20:
+            return m2
+        fuel, n, mlen = fuel - 1, n2, m2
+    return mlen
+
+
 def proved_region(c):
     """Which array-level theorems cover the run `appends; sum; merge_all` of this case (None if it is not a pure run)."""
     ops = c["ops"]
@@ -93,6 +111,8 @@ def proved_region(c):
         out.append("C04_acc_total_volume")
     if mlen >= 4 and 20 <= cap <= L and 20 * len(keys) < 19 * cap:
         out.append("C04_acc_total_few_keys")
+    if mlen >= 4 and 20 <= cap <= L and 8 * nev + 6 * L < L * 2 ** (driver_mlen(8, L, cap, mlen) - 1):
+        out.append("C04_acc_total_driver")
     return out
 
 
@@ -158,26 +178,55 @@ def gen_volume_case(rng, L):
     return c
 
 
+def gen_driver_case(rng, L):
+    """A pure run beyond C04_acc_total_volume, inside C04_acc_total_driver: buffer allocated at most `limit` long, the
+    shortest admissible min stack (|min| = 4: depth must stay <= 3), more events than 8*n + 6*L < L*2^(grow_min_size(4)-1)
+    allows; a few hundred distinct keys, so that the buffer grows several times and then keeps cycling over them."""
+    assert L >= 20
+    cap, mlen = rng.choice([20, 32, rng.randint(20, L), L]), 4
+    budget = (L * 2 ** (grow_min_size(mlen) - 1) - 6 * L - 1) // 8
+    nev = budget + rng.randint(1, 300)
+    nkeys = rng.choice([rng.randint(60, 130), rng.randint(130, 400)])
+    fresh = list(range(nkeys))
+    rng.shuffle(fresh)
+    evs = []
+    for i in range(nev):
+        k = fresh[i] if i < nkeys and rng.random() < 0.8 else fresh[rng.randrange(min(i + 1, nkeys))]
+        evs.append((k // 37, k % 37, rng.randint(1, 3), k % 37 + 38 * (k // 37)))
+    ops = [["a", r, cc, v, k] for (r, cc, v, k) in evs] + [["s"], ["m"]]
+    c = {"limit": L, "cap": cap, "mlen": mlen, "nk": len({e[3] for e in evs}), "ops": ops, "vol": "driver"}
+    region = proved_region(c)
+    assert region == ["C04_acc_total_driver"], (L, cap, mlen, nev, region)
+    return c
+
+
 def volume_invariant(c, obs):
     """Consequences of the invariant VInv of Proofs/K01_CooAcc_volume.v on a pure run inside its region, evaluated on
     the observations after every op: level counter = sum of 2^j over the occupied levels j < depth,
     F = #flushes not followed by merge_all <= 2 * #events / limit, counter <= 4 * (F + 1), 2^(depth-1) <= 4 * (F + 1);
     while capacity <= limit: F = 0, i.e. counter <= 4 and depth <= 3.  (After the final coo_sum_duplicates, before
-    merge_all, one more unit.)  Returns (problem | None, max depth, max counter)."""
+    merge_all, one more unit.)  With key preservation (regime_k of Proofs/K01_CooAcc_keys.v): F = 0 also after every growth
+    cap -> cap' with cap' <= limit + ceil(0.95 * cap), for a buffer that started at most `limit` long.
+    Returns (problem | None, max depth, max counter, #ops in the F = 0 regime beyond capacity <= limit)."""
     L = c["limit"]
-    E, maxd, maxc = 0, 0, 0
+    E, maxd, maxc, safe_ops = 0, 0, 0, 0
+    safe, cap_prev = c["cap"] <= L, c["cap"]
     for j, (o, ob) in enumerate(zip(c["ops"], obs)):
         ind, depth, cap, mlen, mv = ob[0], ob[1], ob[2], ob[3], ob[4]
         if o[0] == "a":
             E += 1
+        if cap != cap_prev:
+            safe = safe and cap <= L + (19 * cap_prev + 19) // 20
+            cap_prev = cap
         cnt = sum(2 ** q for q in range(depth) if mv[q] > 0)
-        F = 0 if cap <= L else (2 * E) // L
+        F = 0 if safe else (2 * E) // L
+        safe_ops += safe and cap > L
         bound = 4 * (F + 1) + (1 if o[0] == "s" else 0)
         maxd, maxc = max(maxd, depth), max(maxc, cnt)
         if cnt > bound or (depth > 0 and 2 ** (depth - 1) > bound) or not (depth < mlen):
             return ("after op %d: level counter %d, depth %d, |min| %d, capacity %d; bound 4*(F+1) = %d with F <= %d (%d events, limit %d)"
-                    % (j, cnt, depth, mlen, cap, bound, F, E, L)), maxd, maxc
-    return None, maxd, maxc
+                    % (j, cnt, depth, mlen, cap, bound, F, E, L)), maxd, maxc, safe_ops
+    return None, maxd, maxc, safe_ops
 
 
 STATE_CORPUS = [
@@ -563,7 +612,7 @@ def run(ctx, replay=None):
         "flat kernel, fixed window radii, normalize_windows=False at API level (integer counts); other kernels are C03's",
         "numpy's unstable argsort is modelled by a stable sort: only the live entries are compared (the stale region is "
         "irrelevant under the repaired flush rule)",
-        "the state-level generator stays inside the region of C04_acc_total or C04_acc_total_volume / _few_keys "
+        "the state-level generator stays inside the region of C04_acc_total or C04_acc_total_volume / _few_keys / _driver "
         "(capacity >= 20, |min| >= 2*ceil(log2 cap), event budget per sort window); a case on which the model predicts an "
         "out-of-bounds access is reported as a correspondence failure",
         "OS thread interleavings are whatever the machine produces (thread counts are explicit)",
@@ -581,6 +630,8 @@ def run(ctx, replay=None):
     n_vol = {1: 2, 2: 2, 3: 2, 4: 3, 5: 7, 8: 7, 16: 8, 64: 9}
     for L in LIMITS:
         state_cases[L] += [gen_volume_case(ctx.rng, L) for _ in range(n_vol.get(L, 4) * (1 if ctx.quick else 4))]
+    # beyond C04_acc_total_volume, inside C04_acc_total_driver (needs 20 <= capacity <= limit: limit 64 only)
+    state_cases[64] += [gen_driver_case(ctx.rng, 64) for _ in range(2 if ctx.quick else 8)]
     groups = API_CORPUS + [g for g in gen_api_groups(ctx) if timed_ok(g)]
     big_cases = []
     if not ctx.quick:
@@ -655,7 +706,8 @@ def model_obs(v):
 def check_state(ctx, state_cases, model, state_res, deaths):
     n_cmp, n_ops, bad_corr, n_fault, failures = 0, 0, [], 0, []
     vol = {"pure_runs_in_volume_region": 0, "beyond_C04_acc_total": 0, "few_keys_region": 0, "invariant_checked_ops": 0,
-           "max_depth": 0, "max_level_counter": 0, "max_events": 0, "grown_twice_or_more": 0, "by_shape": {}}
+           "max_depth": 0, "max_level_counter": 0, "max_events": 0, "grown_twice_or_more": 0, "by_shape": {},
+           "driver_region_beyond_volume": 0, "ops_with_F0_demanded_at_capacity_above_limit": 0, "key_sets_checked_ops": 0}
     dead = {(tag, i): info for (tag, i, info) in deaths}
     for L in LIMITS:
         tag = "L%d" % L
@@ -700,11 +752,20 @@ def check_state(ctx, state_cases, model, state_res, deaths):
                 if m_final != r["final"]:
                     bad_corr.append((c, "final live entries differ: model %s implementation %s" % (m_final[:8], r["final"][:8])))
                 region = proved_region(c) or []
-                if "C04_acc_total_volume" in region or "C04_acc_total_few_keys" in region:
+                # key preservation (C04_keys_preserved_*), evaluated by the child on the implementation after every op
+                vol["key_sets_checked_ops"] += len(r["obs"])
+                if r.get("keys_problem"):
+                    kp = r["keys_problem"]
+                    bad_corr.append((c, "the set of live keys is not preserved by op %d (%s): lost %s, invented %s "
+                                        "(C04_keys_preserved_sum_duplicates / _merge_all, Proofs/K01_CooAcc_keys.v)"
+                                     % (kp[0], c["ops"][kp[0]], kp[1], kp[2])))
+                if set(region) & {"C04_acc_total_volume", "C04_acc_total_few_keys", "C04_acc_total_driver"}:
                     # the strengthened invariant, evaluated on the implementation's own trace
-                    problem, maxd, maxc = volume_invariant(c, r["obs"])
+                    problem, maxd, maxc, safe_ops = volume_invariant(c, r["obs"])
                     vol["pure_runs_in_volume_region"] += 1
                     vol["beyond_C04_acc_total"] += "C04_acc_total" not in region
+                    vol["driver_region_beyond_volume"] += region == ["C04_acc_total_driver"]
+                    vol["ops_with_F0_demanded_at_capacity_above_limit"] += safe_ops
                     vol["few_keys_region"] += "C04_acc_total_few_keys" in region
                     vol["invariant_checked_ops"] += len(r["obs"])
                     vol["max_depth"], vol["max_level_counter"] = max(vol["max_depth"], maxd), max(vol["max_level_counter"], maxc)
@@ -714,7 +775,8 @@ def check_state(ctx, state_cases, model, state_res, deaths):
                         vol["by_shape"][c["vol"]] = vol["by_shape"].get(c["vol"], 0) + 1
                     if problem:
                         bad_corr.append((c, "the invariant VInv of Proofs/K01_CooAcc_volume.v (level counter <= 4*(F+1), "
-                                            "limit*F <= 2*#events) does not hold on the implementation's trace " + problem))
+                                            "limit*F <= 2*#events; F = 0 in the regime of Proofs/K01_CooAcc_keys.v) does not "
+                                            "hold on the implementation's trace " + problem))
     failures.sort(key=lambda f: f[0])          # the shortest failing op sequences first
     for (_, L, c, problems, final) in failures:
         ctx.report("accumulator loses/duplicates/mis-credits events at COO_QUICKSORT_LIMIT=%d, capacity %d, %d ops: %s"
